@@ -49,8 +49,14 @@ def work(task):
         has_ref, ents = declared.declared_units(key)
         obs = {u["dbg"]: u for u in ent["units"]}
         part.evals += 1
-        if sorted(obs) != sorted(e["variant"] for e in ents):
-            viol("unit_set", "-", "iterated units %s differ from the table %s" % (sorted(obs), sorted(e["variant"] for e in ents)))
+        want_set = set(e["variant"] for e in ents)
+        missing = sorted(want_set - set(obs))
+        extra_units = sorted(set(obs) - want_set)
+        if missing:
+            viol("unit_set", "-", "published units %s are not iterated (iterated: %s)" % (missing, sorted(obs)))
+        if extra_units:
+            # a unit the definition table does not know cannot be judged: not a violation, but not a pass either
+            part.inconclusive.append("%s %s: units %s are not in tables/catalogue.json - extend the table to judge them" % (b, key, extra_units))
         for e in ents:
             u = obs.get(e["variant"])
             if u is None:
